@@ -308,6 +308,45 @@ pub fn gen_valid(rng: &mut Rng) -> Vec<u8> {
     out
 }
 
+/// A request of the grammar that does not fit one frame: a very long target, a very long header
+/// value, or very many header lines (TCP only - the client cuts it at its segment size).
+pub fn gen_jumbo(rng: &mut Rng) -> Vec<u8> {
+    let m = *rng.pick(&METHODS);
+    let big = *rng.pick(&[4090usize, 5000, 8191, 8192, 8193, 10000, 16384, 20000, 40000, 65536, 70000]);
+    let mut out = Vec::new();
+    out.extend_from_slice(m.as_bytes());
+    out.push(b' ');
+    let kind = rng.below(3);
+    out.push(b'/');
+    if kind == 0 {
+        for _ in 0..big {
+            out.push(*rng.pick(b"abcdefghijklmnopqrstuvwxyz0123456789/._-~%?=&"));
+        }
+    } else {
+        out.extend_from_slice(b"index.html");
+    }
+    out.extend_from_slice(b" HTTP/1.1\r\n");
+    match kind {
+        1 => {
+            out.extend_from_slice(b"Cookie: ");
+            for _ in 0..big {
+                out.push(rng.range(0x20, 0x7e) as u8);
+            }
+            out.extend_from_slice(b"\r\n");
+        }
+        2 => {
+            let mut k = 0;
+            while out.len() < big {
+                out.extend_from_slice(format!("X-Header-{}: {}\r\n", k, k * 7).as_bytes());
+                k += 1;
+            }
+        }
+        _ => out.extend_from_slice(b"Host: example.org\r\n"),
+    }
+    out.extend_from_slice(b"\r\n");
+    out
+}
+
 /// Single-fault corruptions of a valid request that must not be answered, plus truncations.
 pub fn gen_fault(rng: &mut Rng) -> Vec<u8> {
     let v = gen_valid(rng);
